@@ -1,0 +1,451 @@
+//go:build verif
+
+// Contracts for the govc verifier (see /verif/DESIGN.md). Comment-only file.
+package slicez
+
+//@ func SubSlice
+//@   ensures (start > len(s) || ite(start < 0, 0, start) >= ite(end < 0 || end > len(s), len(s), end)) ==> isnil(result)
+//@   ensures !(start > len(s) || ite(start < 0, 0, start) >= ite(end < 0 || end > len(s), len(s), end)) ==> sameArray(result, s) && result.off == s.off + ite(start < 0, 0, start) && len(result) == ite(end < 0 || end > len(s), len(s), end) - ite(start < 0, 0, start)
+
+//@ func Copy
+//@   ensures (len(s) == 0 || start >= len(s) || length == 0) ==> isnil(result)
+//@   ensures !(len(s) == 0 || start >= len(s) || length == 0) ==> fresh(result) && len(result) == ite(length < 0 || length > len(s) - ite(start < 0, 0, start), len(s) - ite(start < 0, 0, start), length)
+//@   ensures !(len(s) == 0 || start >= len(s) || length == 0) ==> forall k in 0..len(result): result[k] == s[ite(start < 0, 0, start) + k]
+
+//@ func Index
+//@   ensures -1 <= result && result < len(s)
+//@   ensures result >= 0 ==> s[result] == v && forall k in 0..result: s[k] != v
+//@   ensures result == -1 ==> forall k in 0..len(s): s[k] != v
+//@   loop 1:
+//@     invariant forall k in 0..i: s[k] != v
+//@     decreases len(s) - i
+
+//@ func Equal
+//@   ensures result == (len(s1) == len(s2) && forall k in 0..len(s1): s1[k] == s2[k])
+//@   loop 1:
+//@     invariant forall k in 0..i: s1[k] == s2[k]
+//@     decreases len(s1) - i
+
+//@ func Remove
+//@   modifies s[0:len(s)]
+//@   ensures result3 == (0 <= index && index < len(s))
+//@   ensures !result3 ==> sameSlice(result1, s) && forall k in 0..len(s): s[k] == old(s[k])
+//@   ensures result3 ==> result2 == old(s[index]) && sameArray(result1, s) && result1.off == s.off && len(result1) == len(s) - 1
+//@   ensures result3 ==> forall k in 0..index: result1[k] == old(s[k])
+//@   ensures result3 ==> forall k in index..len(s)-1: result1[k] == old(s[k+1])
+
+//@ func Filter
+//@   ghost w = anyseq()
+//@   ghost pos = anyseq()
+//@   requires !sameArray(dst, s) || dst.off == s.off
+//@   modifies dst[0:cap(dst)]
+//@   ensures forall j in 0..len(result): 0 <= w[j] && w[j] < len(s) && result[j] == old(s[w[j]]) && predicate(old(s[w[j]]))
+//@   ensures forall j in 0..len(result)-1: w[j] < w[j+1]
+//@   ensures forall k in 0..len(s): predicate(old(s[k])) ==> 0 <= pos[k] && pos[k] < len(result) && w[pos[k]] == k
+//@   loop 1:
+//@     invariant len(dst) <= idx1 && frameOnly(old(dst))
+//@     invariant sameArray(dst, old(dst)) && dst.off == old(dst.off) && cap(dst) == old(cap(dst)) || fresh(dst)
+//@     invariant forall k in idx1..len(s): s[k] == old(s[k])
+//@     invariant forall j in 0..len(dst): 0 <= w[j] && w[j] < idx1 && dst[j] == old(s[w[j]]) && predicate(old(s[w[j]]))
+//@     invariant forall j in 0..len(dst)-1: w[j] < w[j+1]
+//@     invariant forall k in 0..idx1: predicate(old(s[k])) ==> 0 <= pos[k] && pos[k] < len(dst) && w[pos[k]] == k
+//@     decreases len(s) - idx1
+//@   at after-call2:
+//@     ghost w = store(w, len(dst)-1, idx1)
+//@     ghost pos = store(pos, idx1, len(dst)-1)
+
+//@ spec notIn(x T, s bytes_any) bool = forall q in 0..len(s): s[q] != x
+
+//@ func Diff
+//@   ghost w = anyseq()
+//@   ghost pos = anyseq()
+//@   ghost wm = anyseq()
+//@   requires !sameArray(dst, s1) || dst.off == s1.off
+//@   modifies dst[0:cap(dst)]
+//@   ensures len(s1) == 0 ==> len(result) == 0
+//@   ensures len(s2) == 0 ==> len(result) == len(s1) && forall j in 0..len(s1): result[j] == old(s1[j])
+//@   ensures len(s2) > 0 ==> forall j in 0..len(result): 0 <= w[j] && w[j] < len(s1) && result[j] == old(s1[w[j]]) && notIn(old(s1[w[j]]), old(s2))
+//@   ensures len(s2) > 0 ==> forall j in 0..len(result)-1: w[j] < w[j+1]
+//@   ensures len(s2) > 0 ==> forall k in 0..len(s1): notIn(old(s1[k]), old(s2)) ==> 0 <= pos[k] && pos[k] < len(result) && w[pos[k]] == k
+//@   loop 1:
+//@     invariant forall k in 0..i: has(m, s2[k])
+//@     invariant forall x: has(m, x) ==> 0 <= wm[x] && wm[x] < i && s2[wm[x]] == x
+//@     decreases len(s2) - i
+//@   at loop1.body-end:
+//@     ghost wm = store(wm, s2[i], i)
+//@   loop 2:
+//@     invariant len(dst) <= idx2 && frameOnly(old(dst))
+//@     invariant sameArray(dst, old(dst)) && dst.off == old(dst.off) && cap(dst) == old(cap(dst)) || fresh(dst)
+//@     invariant forall k in idx2..len(s1): s1[k] == old(s1[k])
+//@     invariant forall j in 0..len(dst): 0 <= w[j] && w[j] < idx2 && dst[j] == old(s1[w[j]]) && notIn(old(s1[w[j]]), old(s2))
+//@     invariant forall j in 0..len(dst)-1: w[j] < w[j+1]
+//@     invariant forall k in 0..idx2: notIn(old(s1[k]), old(s2)) ==> 0 <= pos[k] && pos[k] < len(dst) && w[pos[k]] == k
+//@     decreases len(s1) - idx2
+//@   at loop2.body-begin:
+//@     assert v == old(s1[idx2])
+//@     assert !has(m, v) ==> notIn(v, old(s2))
+//@     assert has(m, v) ==> !notIn(v, old(s2))
+//@   at after-call6:
+//@     ghost w = store(w, len(dst)-1, idx2)
+//@     ghost pos = store(pos, idx2, len(dst)-1)
+
+//@ func Intersect
+//@   ghost w = anyseq()
+//@   ghost pos = anyseq()
+//@   ghost wm = anyseq()
+//@   requires !sameArray(dst, s1) || dst.off == s1.off
+//@   modifies dst[0:cap(dst)]
+//@   ensures (len(s1) == 0 || len(s2) == 0) ==> len(result) == 0
+//@   ensures forall j in 0..len(result): 0 <= w[j] && w[j] < len(s1) && result[j] == old(s1[w[j]]) && !notIn(old(s1[w[j]]), old(s2))
+//@   ensures forall j in 0..len(result)-1: w[j] < w[j+1]
+//@   ensures len(s2) > 0 ==> forall k in 0..len(s1): !notIn(old(s1[k]), old(s2)) ==> 0 <= pos[k] && pos[k] < len(result) && w[pos[k]] == k
+//@   loop 1:
+//@     invariant forall k in 0..i: has(m, s2[k])
+//@     invariant forall x: has(m, x) ==> 0 <= wm[x] && wm[x] < i && s2[wm[x]] == x
+//@     decreases len(s2) - i
+//@   at loop1.body-end:
+//@     ghost wm = store(wm, s2[i], i)
+//@   loop 2:
+//@     invariant len(dst) <= idx2 && frameOnly(old(dst))
+//@     invariant sameArray(dst, old(dst)) && dst.off == old(dst.off) && cap(dst) == old(cap(dst)) || fresh(dst)
+//@     invariant forall k in idx2..len(s1): s1[k] == old(s1[k])
+//@     invariant forall j in 0..len(dst): 0 <= w[j] && w[j] < idx2 && dst[j] == old(s1[w[j]]) && !notIn(old(s1[w[j]]), old(s2))
+//@     invariant forall j in 0..len(dst)-1: w[j] < w[j+1]
+//@     invariant forall k in 0..idx2: !notIn(old(s1[k]), old(s2)) ==> 0 <= pos[k] && pos[k] < len(dst) && w[pos[k]] == k
+//@     decreases len(s1) - idx2
+//@   at loop2.body-begin:
+//@     assert v == old(s1[idx2])
+//@     assert !has(m, v) ==> notIn(v, old(s2))
+//@     assert has(m, v) ==> !notIn(v, old(s2))
+//@   at after-call5:
+//@     ghost w = store(w, len(dst)-1, idx2)
+//@     ghost pos = store(pos, idx2, len(dst)-1)
+
+//@ func DiffInPlaceFirst
+//@   ghost pm = idseq()
+//@   ghost ipm = idseq()
+//@   ghost wm = anyseq()
+//@   ghost r0 = 0
+//@   requires !sameArray(s1, s2)
+//@   modifies s1[0:len(s1)]
+//@   ensures sameArray(result, s1) && result.off == s1.off && len(result) <= len(s1)
+//@   ensures (len(s1) == 0 || len(s2) == 0) ==> len(result) == len(s1) && forall k in 0..len(s1): s1[k] == old(s1[k])
+//@   ensures (len(s1) > 0 && len(s2) > 0) ==> forall k in 0..len(s1): 0 <= pm[k] && pm[k] < len(s1) && ipm[pm[k]] == k
+//@   ensures (len(s1) > 0 && len(s2) > 0) ==> forall k in 0..len(s1): s1[k] == old(s1[pm[k]])
+//@   ensures (len(s1) > 0 && len(s2) > 0) ==> forall j in 0..len(result): notIn(old(s1[pm[j]]), old(s2))
+//@   ensures (len(s1) > 0 && len(s2) > 0) ==> forall j in 0..len(result)-1: pm[j] < pm[j+1]
+//@   ensures (len(s1) > 0 && len(s2) > 0) ==> forall k in 0..len(s1): notIn(old(s1[k]), old(s2)) ==> ipm[k] < len(result)
+//@   loop 1:
+//@     invariant forall k in 0..i: has(m, s2[k])
+//@     invariant forall x: has(m, x) ==> 0 <= wm[x] && wm[x] < i && s2[wm[x]] == x
+//@     decreases len(s2) - i
+//@   at loop1.body-end:
+//@     ghost wm = store(wm, s2[i], i)
+//@   at loop1.after:
+//@     assert forall x: !has(m, x) ==> notIn(x, old(s2))
+//@     assert forall x: has(m, x) ==> !notIn(x, old(s2))
+//@   loop 2:
+//@     invariant 0 <= remain && remain <= i && unchangedOutside(s1, 0, len(s1))
+//@     invariant forall k in 0..len(s1): 0 <= pm[k] && pm[k] < len(s1) && ipm[pm[k]] == k
+//@     invariant forall k in 0..len(s1): s1[k] == old(s1[pm[k]])
+//@     invariant forall k in i..len(s1): pm[k] == k
+//@     invariant forall j in 0..remain: pm[j] < i && !has(m, old(s1[pm[j]]))
+//@     invariant forall j in 0..remain-1: pm[j] < pm[j+1]
+//@     invariant forall k in 0..i: !has(m, old(s1[k])) ==> ipm[k] < remain
+//@     invariant forall k in remain..i: pm[k] < i && has(m, old(s1[pm[k]]))
+//@     decreases len(s1) - i
+//@   at loop2.body-begin:
+//@     ghost r0 = remain
+//@   at loop2.body-end:
+//@     assert pm[i] == i && ipm[i] == i && ipm[pm[r0]] == r0
+//@     assert r0 < i ==> has(m, old(s1[pm[r0]])) && pm[r0] < i
+//@     ghost ipm = ite(remain != r0, swapseq(ipm, pm[r0], pm[i]), ipm)
+//@     ghost pm = ite(remain != r0, swapseq(pm, r0, i), pm)
+
+//@ func IntersectInPlaceFirst
+//@   ghost pm = idseq()
+//@   ghost ipm = idseq()
+//@   ghost wm = anyseq()
+//@   ghost r0 = 0
+//@   requires !sameArray(s1, s2)
+//@   modifies s1[0:len(s1)]
+//@   ensures sameArray(result, s1) && result.off == s1.off && len(result) <= len(s1)
+//@   ensures (len(s1) == 0 || len(s2) == 0) ==> len(result) == 0 && forall k in 0..len(s1): s1[k] == old(s1[k])
+//@   ensures (len(s1) > 0 && len(s2) > 0) ==> forall k in 0..len(s1): 0 <= pm[k] && pm[k] < len(s1) && ipm[pm[k]] == k
+//@   ensures (len(s1) > 0 && len(s2) > 0) ==> forall k in 0..len(s1): s1[k] == old(s1[pm[k]])
+//@   ensures (len(s1) > 0 && len(s2) > 0) ==> forall j in 0..len(result): !notIn(old(s1[pm[j]]), old(s2))
+//@   ensures (len(s1) > 0 && len(s2) > 0) ==> forall j in 0..len(result)-1: pm[j] < pm[j+1]
+//@   ensures (len(s1) > 0 && len(s2) > 0) ==> forall k in 0..len(s1): !notIn(old(s1[k]), old(s2)) ==> ipm[k] < len(result)
+//@   loop 1:
+//@     invariant forall k in 0..i: has(m, s2[k])
+//@     invariant forall x: has(m, x) ==> 0 <= wm[x] && wm[x] < i && s2[wm[x]] == x
+//@     decreases len(s2) - i
+//@   at loop1.body-end:
+//@     ghost wm = store(wm, s2[i], i)
+//@   at loop1.after:
+//@     assert forall x: !has(m, x) ==> notIn(x, old(s2))
+//@     assert forall x: has(m, x) ==> !notIn(x, old(s2))
+//@   loop 2:
+//@     invariant 0 <= remain && remain <= i && unchangedOutside(s1, 0, len(s1))
+//@     invariant forall k in 0..len(s1): 0 <= pm[k] && pm[k] < len(s1) && ipm[pm[k]] == k
+//@     invariant forall k in 0..len(s1): s1[k] == old(s1[pm[k]])
+//@     invariant forall k in i..len(s1): pm[k] == k
+//@     invariant forall j in 0..remain: pm[j] < i && has(m, old(s1[pm[j]]))
+//@     invariant forall j in 0..remain-1: pm[j] < pm[j+1]
+//@     invariant forall k in 0..i: has(m, old(s1[k])) ==> ipm[k] < remain
+//@     invariant forall k in remain..i: pm[k] < i && !has(m, old(s1[pm[k]]))
+//@     decreases len(s1) - i
+//@   at loop2.body-begin:
+//@     ghost r0 = remain
+//@   at loop2.body-end:
+//@     assert pm[i] == i && ipm[i] == i && ipm[pm[r0]] == r0
+//@     assert r0 < i ==> !has(m, old(s1[pm[r0]])) && pm[r0] < i
+//@     ghost ipm = ite(remain != r0, swapseq(ipm, pm[r0], pm[i]), ipm)
+//@     ghost pm = ite(remain != r0, swapseq(pm, r0, i), pm)
+
+//@ func FilterInPlace
+//@   ghost pm = idseq()
+//@   ghost ipm = idseq()
+//@   ghost r0 = 0
+//@   modifies s[0:len(s)]
+//@   ensures sameArray(result, s) && result.off == s.off && len(result) <= len(s)
+//@   ensures forall k in 0..len(s): 0 <= pm[k] && pm[k] < len(s) && ipm[pm[k]] == k
+//@   ensures forall k in 0..len(s): s[k] == old(s[pm[k]])
+//@   ensures forall j in 0..len(result): predicate(old(s[pm[j]]))
+//@   ensures forall j in 0..len(result)-1: pm[j] < pm[j+1]
+//@   ensures forall k in 0..len(s): predicate(old(s[k])) ==> ipm[k] < len(result)
+//@   loop 1:
+//@     invariant 0 <= remain && remain <= i && unchangedOutside(s, 0, len(s))
+//@     invariant forall k in 0..len(s): 0 <= pm[k] && pm[k] < len(s) && ipm[pm[k]] == k
+//@     invariant forall k in 0..len(s): s[k] == old(s[pm[k]])
+//@     invariant forall k in i..len(s): pm[k] == k
+//@     invariant forall j in 0..remain: pm[j] < i && predicate(old(s[pm[j]]))
+//@     invariant forall j in 0..remain-1: pm[j] < pm[j+1]
+//@     invariant forall k in 0..i: predicate(old(s[k])) ==> ipm[k] < remain
+//@     invariant forall k in remain..i: pm[k] < i && !predicate(old(s[pm[k]]))
+//@     decreases len(s) - i
+//@   at loop1.body-begin:
+//@     ghost r0 = remain
+//@   at loop1.body-end:
+//@     assert pm[i] == i && ipm[i] == i && ipm[pm[r0]] == r0
+//@     assert r0 < i ==> !predicate(old(s[pm[r0]])) && pm[r0] < i
+//@     ghost ipm = ite(remain != r0, swapseq(ipm, pm[r0], pm[i]), ipm)
+//@     ghost pm = ite(remain != r0, swapseq(pm, r0, i), pm)
+
+//@ spec firstOcc(s bytes_any, k int) bool = forall q in 0..k: s[q] != s[k]
+
+//@ func Unique
+//@   ghost w = anyseq()
+//@   ghost pos = anyseq()
+//@   ghost wm = anyseq()
+//@   ghost u0 = 0
+//@   requires !sameArray(dst, s) || dst.off == s.off
+//@   modifies dst[0:cap(dst)]
+//@   ensures forall j in 0..len(result): 0 <= w[j] && w[j] < len(s) && result[j] == old(s[w[j]]) && firstOcc(old(s), w[j])
+//@   ensures forall j in 0..len(result)-1: w[j] < w[j+1]
+//@   ensures forall k in 0..len(s): firstOcc(old(s), k) ==> 0 <= pos[k] && pos[k] < len(result) && w[pos[k]] == k
+//@   loop 1:
+//@     invariant len(dst) <= idx1 && frameOnly(old(dst)) && uniqueCount == len(seen)
+//@     invariant sameArray(dst, old(dst)) && dst.off == old(dst.off) && cap(dst) == old(cap(dst)) || fresh(dst)
+//@     invariant forall k in idx1..len(s): s[k] == old(s[k])
+//@     invariant forall k in 0..idx1: has(seen, old(s[k]))
+//@     invariant forall x: has(seen, x) ==> 0 <= wm[x] && wm[x] < idx1 && old(s[wm[x]]) == x
+//@     invariant forall j in 0..len(dst): 0 <= w[j] && w[j] < idx1 && dst[j] == old(s[w[j]]) && firstOcc(old(s), w[j])
+//@     invariant forall j in 0..len(dst)-1: w[j] < w[j+1]
+//@     invariant forall k in 0..idx1: firstOcc(old(s), k) ==> 0 <= pos[k] && pos[k] < len(dst) && w[pos[k]] == k
+//@     decreases len(s) - idx1
+//@   at loop1.body-begin:
+//@     ghost u0 = uniqueCount
+//@     assert v == old(s[idx1])
+//@     assert !has(seen, v) ==> firstOcc(old(s), idx1)
+//@     assert has(seen, v) ==> !firstOcc(old(s), idx1)
+//@   at loop1.body-end:
+//@     ghost wm = ite(uniqueCount != u0, store(wm, v, idx1), wm)
+//@     ghost w = ite(uniqueCount != u0, store(w, len(dst)-1, idx1), w)
+//@     ghost pos = ite(uniqueCount != u0, store(pos, idx1, len(dst)-1), pos)
+
+//@ spec firstOccK(s bytes_any, k int, f fn) bool = forall q in 0..k: f(s[q]) != f(s[k])
+
+//@ func UniqueByKey
+//@   ghost w = anyseq()
+//@   ghost pos = anyseq()
+//@   ghost wm = anyseq()
+//@   ghost u0 = 0
+//@   requires !sameArray(dst, s) || dst.off == s.off
+//@   modifies dst[0:cap(dst)]
+//@   ensures forall j in 0..len(result): 0 <= w[j] && w[j] < len(s) && result[j] == old(s[w[j]]) && firstOccK(old(s), w[j], keyFn)
+//@   ensures forall j in 0..len(result)-1: w[j] < w[j+1]
+//@   ensures forall k in 0..len(s): firstOccK(old(s), k, keyFn) ==> 0 <= pos[k] && pos[k] < len(result) && w[pos[k]] == k
+//@   loop 1:
+//@     invariant len(dst) <= idx1 && frameOnly(old(dst)) && uniqueCount == len(seen)
+//@     invariant sameArray(dst, old(dst)) && dst.off == old(dst.off) && cap(dst) == old(cap(dst)) || fresh(dst)
+//@     invariant forall k in idx1..len(s): s[k] == old(s[k])
+//@     invariant forall k in 0..idx1: has(seen, keyFn(old(s[k])))
+//@     invariant forall x: has(seen, x) ==> 0 <= wm[x] && wm[x] < idx1 && keyFn(old(s[wm[x]])) == x
+//@     invariant forall j in 0..len(dst): 0 <= w[j] && w[j] < idx1 && dst[j] == old(s[w[j]]) && firstOccK(old(s), w[j], keyFn)
+//@     invariant forall j in 0..len(dst)-1: w[j] < w[j+1]
+//@     invariant forall k in 0..idx1: firstOccK(old(s), k, keyFn) ==> 0 <= pos[k] && pos[k] < len(dst) && w[pos[k]] == k
+//@     decreases len(s) - idx1
+//@   at loop1.body-begin:
+//@     ghost u0 = uniqueCount
+//@     assert v == old(s[idx1])
+//@     assert !has(seen, keyFn(v)) ==> firstOccK(old(s), idx1, keyFn)
+//@     assert has(seen, keyFn(v)) ==> !firstOccK(old(s), idx1, keyFn)
+//@   at loop1.body-end:
+//@     ghost wm = ite(uniqueCount != u0, store(wm, keyFn(v), idx1), wm)
+//@     ghost w = ite(uniqueCount != u0, store(w, len(dst)-1, idx1), w)
+//@     ghost pos = ite(uniqueCount != u0, store(pos, idx1, len(dst)-1), pos)
+
+//@ func UniqueInPlace
+//@   ghost pm = idseq()
+//@   ghost ipm = idseq()
+//@   ghost r0 = 0
+//@   ghost wm = anyseq()
+//@   modifies s[0:len(s)]
+//@   ensures sameArray(result, s) && result.off == s.off && len(result) <= len(s)
+//@   ensures forall k in 0..len(s): 0 <= pm[k] && pm[k] < len(s) && ipm[pm[k]] == k
+//@   ensures forall k in 0..len(s): s[k] == old(s[pm[k]])
+//@   ensures forall j in 0..len(result): firstOcc(old(s), pm[j])
+//@   ensures forall j in 0..len(result)-1: pm[j] < pm[j+1]
+//@   ensures forall k in 0..len(s): firstOcc(old(s), k) ==> ipm[k] < len(result)
+//@   loop 1:
+//@     invariant 0 <= remain && remain <= i && unchangedOutside(s, 0, len(s)) && uniqueCount == len(seen)
+//@     invariant forall k in 0..i: has(seen, old(s[k]))
+//@     invariant forall x: has(seen, x) ==> 0 <= wm[x] && wm[x] < i && old(s[wm[x]]) == x
+//@     invariant forall k in 0..len(s): 0 <= pm[k] && pm[k] < len(s) && ipm[pm[k]] == k
+//@     invariant forall k in 0..len(s): s[k] == old(s[pm[k]])
+//@     invariant forall k in i..len(s): pm[k] == k
+//@     invariant forall j in 0..remain: pm[j] < i && firstOcc(old(s), pm[j])
+//@     invariant forall j in 0..remain-1: pm[j] < pm[j+1]
+//@     invariant forall k in 0..i: firstOcc(old(s), k) ==> ipm[k] < remain
+//@     invariant forall k in remain..i: pm[k] < i && !firstOcc(old(s), pm[k])
+//@     decreases len(s) - i
+//@   at loop1.body-begin:
+//@     ghost r0 = remain
+//@     assert s[i] == old(s[i])
+//@     assert !has(seen, s[i]) ==> firstOcc(old(s), i)
+//@     assert has(seen, s[i]) ==> !firstOcc(old(s), i)
+//@   at loop1.body-end:
+//@     ghost wm = ite(remain != r0, store(wm, old(s[i]), i), wm)
+//@     assert pm[i] == i && ipm[i] == i && ipm[pm[r0]] == r0
+//@     assert r0 < i ==> !firstOcc(old(s), pm[r0]) && pm[r0] < i
+//@     ghost ipm = ite(remain != r0, swapseq(ipm, pm[r0], pm[i]), ipm)
+//@     ghost pm = ite(remain != r0, swapseq(pm, r0, i), pm)
+
+
+//@ func UniqueByKeyInPlace
+//@   ghost pm = idseq()
+//@   ghost ipm = idseq()
+//@   ghost r0 = 0
+//@   ghost wm = anyseq()
+//@   modifies s[0:len(s)]
+//@   ensures sameArray(result, s) && result.off == s.off && len(result) <= len(s)
+//@   ensures forall k in 0..len(s): 0 <= pm[k] && pm[k] < len(s) && ipm[pm[k]] == k
+//@   ensures forall k in 0..len(s): s[k] == old(s[pm[k]])
+//@   ensures forall j in 0..len(result): firstOccK(old(s), pm[j], keyFn)
+//@   ensures forall j in 0..len(result)-1: pm[j] < pm[j+1]
+//@   ensures forall k in 0..len(s): firstOccK(old(s), k, keyFn) ==> ipm[k] < len(result)
+//@   loop 1:
+//@     invariant 0 <= remain && remain <= i && unchangedOutside(s, 0, len(s)) && uniqueCount == len(seen)
+//@     invariant forall k in 0..i: has(seen, keyFn(old(s[k])))
+//@     invariant forall x: has(seen, x) ==> 0 <= wm[x] && wm[x] < i && keyFn(old(s[wm[x]])) == x
+//@     invariant forall k in 0..len(s): 0 <= pm[k] && pm[k] < len(s) && ipm[pm[k]] == k
+//@     invariant forall k in 0..len(s): s[k] == old(s[pm[k]])
+//@     invariant forall k in i..len(s): pm[k] == k
+//@     invariant forall j in 0..remain: pm[j] < i && firstOccK(old(s), pm[j], keyFn)
+//@     invariant forall j in 0..remain-1: pm[j] < pm[j+1]
+//@     invariant forall k in 0..i: firstOccK(old(s), k, keyFn) ==> ipm[k] < remain
+//@     invariant forall k in remain..i: pm[k] < i && !firstOccK(old(s), pm[k], keyFn)
+//@     decreases len(s) - i
+//@   at loop1.body-begin:
+//@     ghost r0 = remain
+//@     assert s[i] == old(s[i])
+//@     assert !has(seen, keyFn(s[i])) ==> firstOccK(old(s), i, keyFn)
+//@     assert has(seen, keyFn(s[i])) ==> !firstOccK(old(s), i, keyFn)
+//@   at loop1.body-end:
+//@     ghost wm = ite(remain != r0, store(wm, keyFn(old(s[i])), i), wm)
+//@     assert pm[i] == i && ipm[i] == i && ipm[pm[r0]] == r0
+//@     assert r0 < i ==> !firstOccK(old(s), pm[r0], keyFn) && pm[r0] < i
+//@     ghost ipm = ite(remain != r0, swapseq(ipm, pm[r0], pm[i]), ipm)
+//@     ghost pm = ite(remain != r0, swapseq(pm, r0, i), pm)
+
+
+//@ func IndexFunc
+//@   ensures -1 <= result && result < len(s)
+//@   ensures result >= 0 ==> fn(s[result]) && forall k in 0..result: !fn(s[k])
+//@   ensures result == -1 ==> forall k in 0..len(s): !fn(s[k])
+//@   loop 1:
+//@     invariant forall k in 0..i: !fn(s[k])
+//@     decreases len(s) - i
+
+//@ func Contains
+//@   ensures result == !notIn(v, s)
+//@ func ContainsFunc
+//@   ensures result == !(forall k in 0..len(s): !fn(s[k]))
+
+//@ func Chunk
+//@   ensures len(s) == 0 ==> isnil(result)
+//@   ensures (len(s) > 0 && (chunkSize < 1 || len(s) <= chunkSize)) ==> len(result) == 1 && sameSlice(result[0], s)
+//@   ensures (len(s) > 0 && chunkSize >= 1 && len(s) > chunkSize) ==> len(result) == len(s)/chunkSize + ite(len(s)%chunkSize > 0, 1, 0)
+//@   ensures (len(s) > 0 && chunkSize >= 1 && len(s) > chunkSize) ==> forall c in 0..len(result): sameArray(result[c], s) && result[c].off == s.off + c*chunkSize && len(result[c]) == min(chunkSize, len(s) - c*chunkSize)
+//@   loop 1:
+//@     invariant 0 <= i && i <= n && start == i*chunkSize && len(chunks) == i && n*chunkSize <= len(s)
+//@     invariant fresh(chunks) && oldUntouched(chunks)
+//@     invariant forall c in 0..i: sameArray(chunks[c], s) && chunks[c].off == s.off + c*chunkSize && len(chunks[c]) == chunkSize
+//@     decreases n - i
+
+//@ func ChunkProcess
+//@   loop 1:
+//@     invariant 0 <= i && i <= n && start == i*chunkSize && n*chunkSize <= len(s)
+//@     decreases n - i
+
+// ---- FlexSlice: Values is the abstract sequence ----
+
+//@ func FlexSlice.withinRange
+//@   inline
+//@ func FlexSlice.Len
+//@   inline
+
+//@ func FlexSlice.shrink
+//@   modifies f.Values
+//@   ensures len(f.Values) == old(len(f.Values)) && forall k in 0..len(f.Values): f.Values[k] == old(f.Values[k])
+//@   ensures sameSlice(f.Values, old(f.Values)) || fresh(f.Values)
+
+//@ func FlexSlice.Append
+//@   modifies f.Values, f.Values[len(f.Values):cap(f.Values)]
+//@   ensures len(f.Values) == old(len(f.Values)) + len(v)
+//@   ensures forall k in 0..old(len(f.Values)): f.Values[k] == old(f.Values[k])
+//@   ensures forall k in 0..len(v): f.Values[old(len(f.Values)) + k] == old(v[k])
+
+//@ func FlexSlice.Prepend
+//@   requires !sameArray(v, f.Values)
+//@   modifies f.Values, f.Values[0:cap(f.Values)]
+//@   ensures len(f.Values) == old(len(f.Values)) + len(v)
+//@   ensures forall k in 0..len(v): f.Values[k] == old(v[k])
+//@   ensures forall k in 0..old(len(f.Values)): f.Values[len(v) + k] == old(f.Values[k])
+
+//@ func FlexSlice.Get
+//@   ensures result2 == (0 <= index && index < len(f.Values))
+//@   ensures result2 ==> result1 == f.Values[index]
+
+//@ func FlexSlice.Remove
+//@   modifies f.Values, f.Values[0:len(f.Values)]
+//@   ensures result2 == (0 <= index && index < old(len(f.Values)))
+//@   ensures !result2 ==> sameSlice(f.Values, old(f.Values)) && forall k in 0..len(f.Values): f.Values[k] == old(f.Values[k])
+//@   ensures result2 ==> result1 == old(f.Values[index]) && len(f.Values) == old(len(f.Values)) - 1
+//@   ensures result2 ==> forall k in 0..index: f.Values[k] == old(f.Values[k])
+//@   ensures result2 ==> forall k in index..len(f.Values): f.Values[k] == old(f.Values[k+1])
+
+//@ func FlexSlice.Pop
+//@   modifies f.Values, f.Values[0:len(f.Values)]
+//@   ensures result2 == (old(len(f.Values)) > 0)
+//@   ensures result2 ==> result1 == old(f.Values[len(f.Values)-1]) && len(f.Values) == old(len(f.Values)) - 1 && forall k in 0..len(f.Values): f.Values[k] == old(f.Values[k])
+
+//@ func FlexSlice.Shift
+//@   modifies f.Values, f.Values[0:len(f.Values)]
+//@   ensures result2 == (old(len(f.Values)) > 0)
+//@   ensures result2 ==> result1 == old(f.Values[0]) && len(f.Values) == old(len(f.Values)) - 1 && forall k in 0..len(f.Values): f.Values[k] == old(f.Values[k+1])
+
+//@ func FlexSlice.SubSlice
+//@   ensures (start > len(f.Values) || ite(start < 0, 0, start) >= ite(end < 0 || end > len(f.Values), len(f.Values), end)) ==> len(result.Values) == 0
+//@   ensures !(start > len(f.Values) || ite(start < 0, 0, start) >= ite(end < 0 || end > len(f.Values), len(f.Values), end)) ==> len(result.Values) == ite(end < 0 || end > len(f.Values), len(f.Values), end) - ite(start < 0, 0, start) && forall k in 0..len(result.Values): result.Values[k] == f.Values[ite(start < 0, 0, start) + k]
